@@ -97,6 +97,21 @@ def scenarios(quick: bool) -> list[tuple[dict, int]]:
             "probe": False,
         }
         sc.append((p, 2))
+    # the wall clock the queue stamps its entries with is not monotonic: 1 ms resolution / set back by an hour after the first caller
+    # (end of DST for naive local time, an NTP correction): first-come-first-served within a priority must not depend on it
+    for wc in ("coarse", "stepback"):
+        for n in (2, 3, 4):
+            for prios in itertools.product(PRIOS, repeat=n):
+                if n == 4 and len(set(prios)) > 2:
+                    continue
+                p = {
+                    "qos_mode": False,
+                    "wallclock": wc,
+                    "callers": [caller(f"rq30c9_0{i+1}", prio=pr, timeout=20.0) for i, pr in enumerate(prios)],
+                    "dev": ("call",) if n <= 3 else (),
+                    "probe": False,
+                }
+                sc.append((p, 1 if n <= 3 else 0))
     # the 32-slot buffer: 33 callers at once
     for npri in (0, 1):
         p = {
